@@ -27,8 +27,8 @@ PLAN = {
         vacuity=[("lit_overflow_cancel", ["FixFifo"]), ("cancel4_d", ["FixCancelDefault"])],
     ),
     "C05": dict(
-        quick=[("smp4", dict(cap=2500))],
-        thorough=["smp4", ("smp5", dict(cap=20000, timeout=2400))],
+        quick=[("smp4", dict(cap=1500)), ("smp_mixed", dict(cap=2500))],
+        thorough=["smp4", "smp_mixed", ("smp5", dict(cap=20000, timeout=2400))],
     ),
     "C06": dict(
         quick=[("att4", dict(cap=1500)), ("att4_c", dict(cap=800)), ("lit_attach_other", dict(cap=800)), ("twin4", dict(cap=600))],
@@ -36,8 +36,8 @@ PLAN = {
         vacuity=[("cancel4_d", ["FixCancelDefault"])],
     ),
     "C07": dict(
-        quick=["hostile4", "notready4", ("over5_d", dict(cap=500))],
-        thorough=["hostile4", "hostile5", "notready4", "over5_d", "over5_c"],
+        quick=["hostile4", "notready4", ("over5_d", dict(cap=500)), "extra:teardown", "extra:teardown_c", "extra:teardown_k1"],
+        thorough=["hostile4", "hostile5", "notready4", "over5_d", "over5_c", "extra:teardown", "extra:teardown_c", "extra:teardown_k1"],
         vacuity=[("hostile4", ["FixEmptyToken"]), ("hostile4", ["FixReentrant"]), ("hostile4", ["FixStackFull"])],
     ),
     "C08": dict(
@@ -57,8 +57,8 @@ PLAN = {
         thorough=["scope5", ("scope6", dict(cap=20000)), "scope_q1", "scope_qfull"],
     ),
     "C11": dict(
-        quick=[("ctx4", dict(cap=2500))],
-        thorough=["ctx4", ("ctx5", dict(cap=20000, timeout=2400))],
+        quick=[("ctx4", dict(cap=2500)), ("smp_mixed", dict(cap=1500))],
+        thorough=["ctx4", "smp_mixed", ("ctx5", dict(cap=20000, timeout=2400))],
         vacuity=[("ctx4", ["FixEmptyToken"])],
     ),
     "C17": dict(
